@@ -335,6 +335,48 @@ def subset_rules(cfg, R, B, X):
                     R.violation('C', c, e.loc, 'recorded rule lines of %s differ between the databases' % p.name)
 
 
+def anchor_rule_rule(cfg, R):
+    """The anchor rule added in front of a policy stands for "standard time since ever": it is a copy of an existing rule
+    with the dates and SAVE overwritten, so every field that is not overwritten (LETTER above all) is inherited.  The
+    rule it copies therefore has to be a SAVE == 0 rule: the store of the candidate must be control dependent on
+    rule['deltaSeconds'] == 0 (or the copy must overwrite 'letter')."""
+    m = py.load(cfg, 'tools/tzdb/transformer.py')
+    R.rule('E', 'the anchor rule is copied from a rule with SAVE == 0 (its LETTER is the standard-time letter)', floor=1)
+    f = m.fn('Transformer._get_anchor_rule')
+    c = 'tzdb.transformer.Transformer._get_anchor_rule:candidate'
+    stores = []
+    for x in ast.walk(f.node):
+        if isinstance(x, ast.Assign) and isinstance(x.targets[0], ast.Subscript) and ast.unparse(x.targets[0].slice) == "'rule'" \
+                and isinstance(x.value, ast.Name):
+            stores.append(x)
+    overwrites_letter = any(isinstance(x, ast.Assign) and isinstance(x.targets[0], ast.Subscript) and ast.unparse(x.targets[0].slice) == "'letter'"
+                            for x in ast.walk(f.node))
+    if not stores:
+        raise AnalysisError('%s: no store of the anchor candidate found (anchor moved)' % f.loc)
+    parents = {}
+    for p in ast.walk(f.node):
+        for ch in ast.iter_child_nodes(p):
+            parents[ch] = p
+    for st in stores:
+        R.instance('E', c, m.loc(st))
+        guarded = False
+        cur = st
+        while cur in parents:
+            par = parents[cur]
+            if isinstance(par, ast.If) and cur in par.body:
+                for y in ast.walk(par.test):
+                    if isinstance(y, ast.Compare) and len(y.ops) == 1 and isinstance(y.ops[0], ast.Eq) and 'deltaSeconds' in ast.unparse(y.left) \
+                            and isinstance(y.comparators[0], ast.Constant) and y.comparators[0].value == 0:
+                        # the comparison must be a conjunct of the test, not an alternative
+                        guarded = not any(isinstance(z, ast.BoolOp) and isinstance(z.op, ast.Or) and any(y is w or y in ast.walk(w) for w in z.values)
+                                          for z in ast.walk(par.test))
+            cur = par
+        if not guarded and not overwrites_letter:
+            R.violation('E', c, m.loc(st), "the anchor candidate is taken from any rule, not only from rules with rule['deltaSeconds'] == 0, and the copy keeps that rule's "
+                        "LETTER: a policy whose earliest rule is a DST rule gets an anchor with the DST letter, so the zone shows the summer abbreviation "
+                        "with the standard offset until its first real transition")
+
+
 def _alignment_witness(T, yparam, fname, a_eff, want, L):
     """(zone, year) pairs of the shipped basic tables for which "latest rule with FROM below a_eff" and "... below want"
     pick rules with different SAVE or LETTER at this call site; None when the bounds are not yearTiny + constant."""
@@ -487,6 +529,7 @@ def run(cfg):
     lib = cxx.load_lib(cfg)
     B = tables.CxxTables(cfg, 'zonedb')
     year_alignment_rule(R, lib, B)
+    anchor_rule_rule(cfg, R)
     X = tables.CxxTables(cfg, 'zonedbx')
     R.analysed['translation_units'] = ['tu/lib.cpp', 'tu/tables_zonedb.cpp', 'tu/tables_zonedbx.cpp']
     data_rules(cfg, R, lib, B)
@@ -527,6 +570,11 @@ SELFTEST = [
     dict(id='after-year-bound-without-shipped-effect-silent', file='src/ace_time/BasicZoneProcessor.h',
          find='      basic::ZoneRuleBroker latest = findLatestPriorRule(\n          eraAfter.zonePolicy(), yearTiny + 1);', replace='      basic::ZoneRuleBroker latest = findLatestPriorRule(\n          eraAfter.zonePolicy(), yearTiny);',
          expect='silent'),
+    dict(id='anchor-from-any-rule', file='tools/tzdb/transformer.py',
+         find="            if (rule['deltaSeconds'] == 0\n                    and rule_date < anchor_info['earliestDate']):", replace="            if rule_date < anchor_info['earliestDate']:", rule='E'),
+    dict(id='anchor-guard-nested-silent', file='tools/tzdb/transformer.py',
+         find="            if (rule['deltaSeconds'] == 0\n                    and rule_date < anchor_info['earliestDate']):\n                anchor_info['earliestDate'] = rule_date\n                anchor_info['rule'] = rule",
+         replace="            if rule['deltaSeconds'] == 0:\n                if rule_date < anchor_info['earliestDate']:\n                    anchor_info['earliestDate'] = rule_date\n                    anchor_info['rule'] = rule", expect='silent'),
     dict(id='basic-filter-unscoped', file='tools/tzdb/transformer.py',
          find="        if self.scope == 'basic':\n            rules_map = self._remove_rules_long_dst_letter(rules_map)",
          replace="        if self.scope == 'extended':\n            rules_map = self._remove_rules_long_dst_letter(rules_map)", rule='B'),
